@@ -1,4 +1,4 @@
-add("C08", "checks/c08_chunking.c", ["default-asan", "default-plain", "heap-plain", "c89-plain"], ["default-asan", "default-plain", "heap-asan", "heap-plain", "c89-plain", "c89-asan", "lf-plain", "cr-plain"],
+add("C08", "checks/c08_chunking.c", ["default-asan", "default-plain", "heap-plain", "c89-plain", "noinfo-plain"], ["default-asan", "default-plain", "heap-asan", "heap-plain", "c89-plain", "c89-asan", "lf-plain", "cr-plain", "noinfo-plain"],
     "cases = byte streams of 1..8 messages (units with quoted strings containing every 7-bit byte incl. CR/LF/';', definite-length blocks with "
     "embedded terminators, numbers with suffixes and white space, expressions, arrays, queries with text/block output, undefined and relative "
     "headers, empty units, LF / CR LF / CR terminators, zero-length flush calls, unterminated tails, random byte mutations); each stream is run "
